@@ -6,6 +6,7 @@
 package main
 
 import (
+	"bytes"
 	"encoding/json"
 	"fmt"
 	"go/ast"
@@ -50,6 +51,10 @@ var exitYield = map[string]map[string][]string{
 // between two of the calls.
 var stmtYield = map[string]bool{
 	"internal/sm2ec/p256_asm_ord.go": true,
+	// helpers over process-wide modulus objects (the SM9 and SM2 group orders are package-level singletons handed to
+	// every call): a helper that borrows the shared modulus as scratch and restores it is invisible to the race detector
+	// (the functions are //go:norace) and to every sequential run
+	"internal/bigmod/nat_extension.go": true,
 }
 
 // stmtYieldFuncs: the same, for single functions of larger files (field inversion and square-root chains, the curve
@@ -119,12 +124,18 @@ func main() {
 	for f := range exitYield {
 		dirs[filepath.Dir(f)] = true
 	}
+	for f := range stmtYield {
+		dirs[filepath.Dir(f)] = true
+	}
+	for f := range stmtYieldFuncs {
+		dirs[filepath.Dir(f)] = true
+	}
 	var dl []string
 	for d := range dirs {
 		dl = append(dl, d)
 	}
 	sort.Strings(dl)
-	nSync, nYield, nExit := 0, 0, 0
+	nSync, nYield, nExit, nNorace := 0, 0, 0, 0
 	for _, d := range dl {
 		ents, err := os.ReadDir(filepath.Join(repo, d))
 		if err != nil {
@@ -171,7 +182,7 @@ func main() {
 			doYield := yieldPkg[d] || yieldFile[rel] || stmtYield[rel]
 			stmtFiles := map[string]bool{}
 			_, hasExit := exitYield[rel]
-			inserted := 0
+			inserted, stmtInserted := 0, 0
 			if stmtYield[rel] || stmtYieldFuncs[rel] != nil {
 				for _, decl := range f.Decls {
 					fd, ok := decl.(*ast.FuncDecl)
@@ -188,6 +199,7 @@ func main() {
 						}
 						edits = append(edits, edit{fset.Position(st.Pos()).Offset, 0, "verifsyncY_.Yield();"})
 						nYield++
+						stmtInserted++
 					}
 				}
 			}
@@ -222,14 +234,21 @@ func main() {
 					inserted++
 				}
 			}
-			if inserted > 0 {
+			if inserted+stmtInserted > 0 {
 				// add the import right after the package clause (same line: keeps line numbers)
 				off := fset.Position(f.Name.End()).Offset
 				edits = append(edits, edit{off, 0, `; import verifsyncY_ "` + hookPath + `"`})
 				nYield += inserted
 			}
-			if !redirect && inserted == 0 {
+			if !redirect && inserted+stmtInserted == 0 && !bytes.Contains(src, []byte("//go:norace")) {
 				continue
+			}
+			// the blind spots the code under test declares for the race detector (//go:norace, there for speed) are removed
+			// in the instrumented copy: same length, so no offset moves
+			noraceRemoved := bytes.Count(src, []byte("//go:norace"))
+			if noraceRemoved > 0 {
+				src = bytes.ReplaceAll(src, []byte("//go:norace"), []byte("//xx:norace"))
+				nNorace += noraceRemoved
 			}
 			sort.Slice(edits, func(i, j int) bool { return edits[i].off > edits[j].off })
 			b := append([]byte{}, src...)
@@ -245,6 +264,6 @@ func main() {
 			replace[filepath.Join(repo, rel)] = dst
 		}
 	}
-	fmt.Fprintf(os.Stderr, "mkc20overlay: %d files rewritten, %d sync imports redirected, %d function-entry yields (%d of them with an exit yield too)\n", len(replace), nSync, nYield, nExit)
+	fmt.Fprintf(os.Stderr, "mkc20overlay: %d files rewritten, %d sync imports redirected, %d function-entry yields (%d of them with an exit yield too), %d //go:norace directives removed\n", len(replace), nSync, nYield, nExit, nNorace)
 	json.NewEncoder(os.Stdout).Encode(replace)
 }
